@@ -584,11 +584,10 @@ func (p *progressVariant) find(buffers [2][]byte, dir uint8) []int {
 			buffer = buffer[1:]
 		}
 	}
-	res := p.regex.FindSubmatchIndex(buffer)
-	if res == nil {
-		p.streamOffset[dir] = len(buffers[dir])
-	}
-	return res
+	// the offset stays where it is when the expression doesn't match: an expression like ^$ would
+	// match the empty rest of the data when the element is tried again, but that is not the data
+	// behind the previous element
+	return p.regex.FindSubmatchIndex(buffer)
 }
 
 func (ps *progressGroup) prepare(r *regex, pIdx int, e *query.DataConditionElement, possibleSubQueries map[string]subQueryVariableData) (*progressVariant, error) {
